@@ -501,6 +501,30 @@ fn c19_batches(out_single: &[SpanRecord]) -> Vec<Vec<SpanRecord>> {
     }
     let large: Vec<SpanRecord> = (0..1000u64).map(|i| rec(0xABCD, i + 1, i, NOW + i, i * 1_000, &format!("span{i}"), &[("i", &i.to_string())], &[])).collect();
     v.push(large);
+    // keys and values that mean something to one of the backends (semantic conventions, reserved
+    // tags, field names of the wire formats): a property is a property whatever it is called.
+    // One record per (key, value), as a span property and as an event property; in two batches.
+    let keys = [
+        "span.kind", "error", "error.msg", "error.message", "error.type", "error.stack", "otel.status_code", "otel.status_description",
+        "otel.library.name", "otel.scope.name", "service.name", "service", "resource.name", "resource", "span.type", "type", "name",
+        "operation", "operation.name", "http.status_code", "http.method", "sampling.priority", "_sampling_priority_v1", "_dd.measured",
+        "_dd.origin", "env", "version", "language", "jaeger.version", "hostname", "ip", "internal.span.format", "peer.service",
+        "component", "db.type", "span_id", "trace_id", "parent_id", "start", "duration", "meta", "metrics", "level", "event", "message",
+        "timestamp", "sampler.type", "sampler.param", "w3c.tracestate", "tracestate", "status", "status.code", "kind",
+    ];
+    let values = ["client", "server", "internal", "ERROR", "OK", "true", "1", "", "batch-job"];
+    let mut as_props = Vec::new();
+    let mut as_event_props = Vec::new();
+    let mut id = 0u64;
+    for k in keys {
+        for val in values {
+            id += 1;
+            as_props.push(rec(0xD1C7, id, 0, NOW + id, 1_000, &format!("p{id}"), &[(k, val)], &[]));
+            as_event_props.push(rec(0xD1C8, id, 0, NOW + id, 1_000, &format!("q{id}"), &[], &[(k, NOW + id, &[(k, val)])]));
+        }
+    }
+    v.push(as_props);
+    v.push(as_event_props);
     v
 }
 
@@ -889,7 +913,7 @@ fn main() {
     let (rule, assumptions): (&str, Vec<&str>) = if prop == "C19" {
         run_c19(tier == "thorough", &mut out);
         (
-            "every single-record batch over the product of field alphabets (6 trace ids incl. top bits, 5 span/parent id pairs incl. top bits, 5 names incl. empty/2-byte/4-byte/300 B, 5 property lists incl. duplicate and empty keys, 4 event lists, 7 begin times, 5 durations) through the Jaeger and OpenTelemetry reporters, through the Datadog reporter (about a CPU-second per report) the full product of a reduced alphabet in the thorough tier and, in the quick tier, trace ids x id pairs in full plus every other field varied one at a time; all batches of <= 3 records over 6 shapes, the empty batch and a 1000-record batch through all three; distinct_nontrivial counts distinct (reporter, batch size, datagram count) classes",
+            "every single-record batch over the product of field alphabets (6 trace ids incl. top bits, 5 span/parent id pairs incl. top bits, 5 names incl. empty/2-byte/4-byte/300 B, 5 property lists incl. duplicate and empty keys, 4 event lists, 7 begin times, 5 durations) through the Jaeger and OpenTelemetry reporters, through the Datadog reporter (about a CPU-second per report) the full product of a reduced alphabet in the thorough tier and, in the quick tier, trace ids x id pairs in full plus every other field varied one at a time; all batches of <= 3 records over 6 shapes, the empty batch, a 1000-record batch and two batches with one record per (key, value) over 53 keys that mean something to a backend (span.kind, error, otel.status_code, service.name, resource.name, sampling.priority, field names of the wire formats, ...) x 9 values, as span properties and as event properties, through all three; distinct_nontrivial counts distinct (reporter, batch size, datagram count) classes",
             vec!["target-format images follow the statement: microseconds in Jaeger, low 64 bits of the trace id + last value per key + no events in Datadog", "loopback UDP loss is ruled out by the socket's drop counter in /proc/net/udp (a drop is a machinery failure, exit 2)", "environment failures (socket errors, HTTP failures) are not in the alphabet"],
         )
     } else {
